@@ -468,3 +468,12 @@ func isBytesBuffer(r io.Reader) bool {
 //@   props C17:post,pre@call C05:post,pre@call
 //@   ensures result == (c.server.options.TLSConfig != nil && c.state == imap.ConnStateNotAuthenticated && !isTLS(c.conn))
 //@   ensures c.state == old(c.state)
+
+// TrackerWF: a session tracker is attached to a mailbox tracker and its queue is
+// well formed with respect to the mailbox's message count (exported for the
+// contracts of back ends).
+//
+//@ pure
+func TrackerWF(t *SessionTracker) bool {
+	return t != nil && t.mailbox != nil && wfBack(t.queue, len(t.queue)-1, t.mailbox.numMessages)
+}
